@@ -492,7 +492,13 @@ _unary("numpy.fabs", T.absv)
 _unary("numpy.negative", T.neg)
 _unary("numpy.square", lambda a: T.mul(a, a))
 _unary("numpy.logical_not", T.lnot, "bool")
-_unary("numpy.floor", lambda a: a if isinstance(a, int) else (Fraction(a.numerator // a.denominator) if isinstance(a, Fraction) else z3.ToReal(z3.ToInt(T.to_real(a)))))
+def _floor(a):
+    if isinstance(a, T.XR):
+        return T.xr(_floor(a.v), a.nan)
+    return a if isinstance(a, int) else (Fraction(a.numerator // a.denominator) if isinstance(a, Fraction) else z3.ToReal(z3.ToInt(T.to_real(a))))
+
+
+_unary("numpy.floor", _floor)
 def _finite_plain(a):
     if OPTIONS.get("finite_reals") and not (is_sym(a) and a.eq(T.INF)):
         return True       # contract option: every non-NaN value of this contract is finite
